@@ -130,14 +130,14 @@ func (Commitment) Domain() string {
 }
 
 func (c *Commitment) IsValid() bool {
-	if c == nil || c.C == nil || c.C.IsIdentity() {
+	if c == nil || curve.IsNilPoint(c.C) || c.C.IsIdentity() {
 		return false
 	}
 	return true
 }
 
 func (z *Response) IsValid() bool {
-	if z == nil || z.Z == nil || z.Z.IsZero() {
+	if z == nil || curve.IsNilScalar(z.Z) || z.Z.IsZero() {
 		return false
 	}
 	return true
